@@ -255,7 +255,9 @@ class Field(mixin.FieldDomain, abstract.PropertiesData):
         if key is not None:
             return super().del_data_axes(key, default=default)
 
-        return self._del_component("data_axes", default=default)
+        out = self._del_component("data_axes", default=default)
+        self.constructs._field_data_axes = None
+        return out
 
     def get_domain(self):
         """Return the domain.
